@@ -2,7 +2,7 @@
 # seed sweep: ./harness/sweep.sh <tier> <seed...>  (prints only failures and a final summary)
 cd "$(dirname "$0")/.." || exit 2
 tier=$1; shift
-( cd lean && lake build VerdeModel verde_model >/dev/null 2>&1 )
+( cd lean && lake build VerdeModel verde_model >/dev/null 2>&1 ) || echo "FAIL setup: lake build VerdeModel verde_model"
 fail=0
 for s in "$@"; do
   for p in C01 C02 C03 C04 C05 C06 C07 C08 C09 C10 C11 C12 C13 C14 C15 C16 C17 C18 C19 C20; do
